@@ -11,6 +11,7 @@ L=/tmp/lane_$LANE
 export CARGO_NET_OFFLINE=true
 mkdir -p $L /tmp/seed_res
 if [ ! -d $L/repo ]; then git -C /repo worktree add -q --detach $L/repo HEAD || exit 2; fi
+(cd $L/repo && git reset -q --hard && git checkout -q --detach $(git -C /repo rev-parse HEAD)) || exit 2
 rsync -a --delete --exclude .git /verif/ $L/verif/
 while read -r SRC PID NAME CRATE OTHERS; do
   [ -z "${SRC:-}" ] && continue
